@@ -354,7 +354,7 @@ var idxConfigs = [][2]int{{0, 0}, {1, 1}, {2, 1}, {1, 64}, {2, 64}}
 func genC19(o *out, r *rng, thorough bool) {
 	L := 5
 	if thorough {
-		L = 6
+		L = 7
 	}
 	// exhaustive (segment, point) triples on the LxL lattice
 	for a := 0; a < L*L; a++ {
@@ -366,7 +366,7 @@ func genC19(o *out, r *rng, thorough bool) {
 	}
 	M := 4
 	if thorough {
-		M = 5
+		M = 6
 	}
 	for a := 0; a < M*M; a++ {
 		for b := 0; b < M*M; b++ {
@@ -380,7 +380,7 @@ func genC19(o *out, r *rng, thorough bool) {
 	// the same lattices shifted / scaled to the top of E and to sixteenths
 	nrand := 30000
 	if thorough {
-		nrand = 400000
+		nrand = 1500000
 	}
 	scales := []int{1, 3, 16, 1 << 10, 1 << 20, (1 << 22) - 1}
 	for i := 0; i < nrand; i++ {
@@ -471,6 +471,9 @@ func randSeq(r *rng, n int, span int, u int) []ipt {
 // C18 + C11(geometry): attributes of all short sequences on the 3x3 lattice, random long ones
 func genC18(o *out, r *rng, thorough bool) {
 	maxLen := 5
+	if thorough {
+		maxLen = 6
+	}
 	var rec func(seq []ipt)
 	rec = func(seq []ipt) {
 		if len(seq) >= 1 {
@@ -495,7 +498,7 @@ func genC18(o *out, r *rng, thorough bool) {
 	o.op("reset")
 	n := 2000
 	if thorough {
-		n = 40000
+		n = 200000
 	}
 	for i := 0; i < n; i++ {
 		ln := r.rangeI(3, 12)
